@@ -98,7 +98,7 @@ func checkC03(c C03Case) *Failure {
 	}
 	leaves, y, err := libForward(c.P)
 	if err != nil {
-		return failf("%s rejected valid operands: %v", n.Op, err)
+		return failf("%s failed on valid operands: %v", n.Op, err)
 	}
 	mode := cmpBits
 	if n.Op == "elmax" || n.Op == "elmin" {
